@@ -294,10 +294,12 @@ def c02(ctx):
     shapes = dict(l.rstrip("\n").split("\t") for l in open(os.path.join(gdir, "shapes.tsv")) if l.strip())
     stats = {"generated_cases": len(shapes), "suite_files": len(files), "runs": {}}
     ctx.extra["c02"] = stats
-    ctx.extra["rule"] = "seeded generator of well-formed cases in the deterministic fragment (5 stream types, 0-4 requests and responses incl. more/fewer responses than requests, payloads empty/1 byte/all 256 values/4 KB, 0-3 mixed-case multi-valued and -bin headers and trailers, errors with any code, hostile messages and 0-3 details) x every permutation of the shipped reference and gRPC configs, modes server, client, both, grpcserver (gRPC and gRPC-Web config) and grpcclient; distinct = permutations that passed"
+    ctx.extra["rule"] = "seeded generator of well-formed cases in the deterministic fragment (5 stream types, 0-4 requests and responses incl. more/fewer responses than requests, payloads empty/1 byte/all 256 values/4 KB, 0-3 mixed-case multi-valued and -bin headers and trailers, errors with any code, hostile messages and 0-3 details; plus side-effect-free unary calls sent with Connect GET whose request data has 0 ... 7000 bytes) x every permutation of the shipped reference and gRPC configs, modes server, client, both, grpcserver (gRPC and gRPC-Web config) and grpcclient; distinct = permutations that passed"
     jobs = []
     for f in files:
         for (label, conf, mode, cmd) in C02_RUNS:
+            if f.startswith("get-") and label.startswith("grpc"):
+                continue  # Connect GET cases do not exist under the gRPC-only configurations
             jobs.append((f, label, conf, mode, cmd))
 
     def one(job):
